@@ -68,6 +68,8 @@ class Check(PropertyCheck):
                 lines.append(f"eqop {op_tokens(*a)} ; {op_tokens(*b)}")
             else:
                 sa = [rng.randint(0, 20), rng.choice(a[0])]
+                if rng.random() < 0.2:
+                    sa[0] += 10 ** rng.choice([9, 12, 15, 18])     # start times are exact integers at any magnitude
                 sb = list(sa)
                 if field == "start":
                     sb[0] += 1
@@ -123,6 +125,9 @@ class Check(PropertyCheck):
                     tr.take(j)
                     h += [j, p, jobs[j][p][0][0] if m == "none" else m]
                 return h
+            if rng.random() < 0.2:
+                big = 10 ** rng.choice([9, 12, 15])      # large durations: start times that differ by one unit at 10^9+
+                jobs = [[(ms, d + big) for ms, d in job] for job in jobs]
             h1 = hist(jobs)
             jobs2, h2 = copy.deepcopy(jobs), list(h1)
             field = "none"
